@@ -289,7 +289,7 @@ def _exhaustive_graphs(ctx: Ctx, rng: Rng):
                 yield f"graph-dup{n}", list(keys), dict(zip(names, combo))
     names = [f"n{i}" for i in range(4)]
     lists = [[]] + [[a] for a in names] + [[a, b] for a in names for b in names] + [[a, a, b] for a in names for b in names]
-    for _ in range(ctx.scale(6000, 60000)):
+    for _ in range(ctx.scale(6000, 40000)):
         yield "graph-dup4", rng.shuffle(names), {u: rng.choice(lists) for u in names}
     if ctx.thorough:
         names = [f"n{i}" for i in range(5)]
@@ -552,7 +552,7 @@ def _families(ctx: Ctx) -> List[Tuple[str, dict]]:
             cases.append(("decimal", rig.gen_game_case(rng, n, arcs, rng.shuffle(list(range(n))),
                                                        n_steps=rng.range(3, ctx.scale(12, 30)), rich=True, decimal=True)))
     # the real pipeline: PrimaiteGymEnv.step on UC2 with dyadic weights, random sticky flags and declaration order
-    for k in range(ctx.scale(2, 30)):
+    for k in range(ctx.scale(2, 24)):
         cases.append(("env", rig.gen_env_case(rng, ctx.scale(40, 128))))
     # ... on UC2 with the shipped weights (0.4 / 0.05 / 0.25 ...), on the other shipped scenarios (own weights, and dyadic ones),
     # and on generated scenarios (harness/gen/scenario.py: switched LAN, routed, firewall+DMZ)
@@ -582,7 +582,7 @@ def _families(ctx: Ctx) -> List[Tuple[str, dict]]:
         c["reset_at"] = sorted({3, 7, ctx.scale(10, 25)})
         cases.append(("env-schedule", c))
     from harness.gen.scenario import FAMILIES as GEN_FAMILIES
-    for k in range(ctx.scale(4, 40)):
+    for k in range(ctx.scale(4, 32)):
         cases.append(("env-gen", rig.gen_env_case(rng, ctx.scale(24, 64), f"gen:{rng.choice(list(GEN_FAMILIES))}:{rng.range(1, 3)}",
                                                   rng.choice(["asis", "dyadic"]))))
     # access_from_nested_dict / projection / serialisation on synthetic nested values
@@ -590,7 +590,7 @@ def _families(ctx: Ctx) -> List[Tuple[str, dict]]:
         cases.append(("access", _access_case(rng)))
     # the two science.py functions on raw graphs: random ones here (lists with repeats, dangling names); the bounded-exhaustive
     # family is streamed separately (_run_graph_bulk)
-    for k in range(ctx.scale(600, 20000)):
+    for k in range(ctx.scale(600, 12000)):
         cases.append(("rawgraph", rig.gen_raw_graph(rng)))
     return cases
 
